@@ -1560,6 +1560,16 @@ func (n *normalizer) visitCallOperands(h *hoistScan, call *ast.CallExpr) {
 
 // normalizePackages rewrites the module's packages in dependency order and type-checks them again.
 func normalizePackages(all []*packages.Package, fset *token.FileSet, gen func(token.Pos) bool) (*normStats, error) {
+	return transformPackages(all, fset, gen, true)
+}
+
+// retypecheckPackages type-checks the (edited) syntax trees again without expanding anything.
+func retypecheckPackages(all []*packages.Package, fset *token.FileSet, gen func(token.Pos) bool) error {
+	_, err := transformPackages(all, fset, gen, false)
+	return err
+}
+
+func transformPackages(all []*packages.Package, fset *token.FileSet, gen func(token.Pos) bool, expand bool) (*normStats, error) {
 	stats := &normStats{Helpers: map[string]int{}, SkippedWhy: map[string]int{}, Dead: map[string]bool{}}
 	// dependency order among the module's packages
 	inMod := map[string]*packages.Package{}
@@ -1592,7 +1602,7 @@ func normalizePackages(all []*packages.Package, fset *token.FileSet, gen func(to
 		visit(p)
 	}
 	for _, p := range order {
-		if err := normalizeOne(p, fset, gen, stats); err != nil {
+		if err := normalizeOne(p, fset, gen, stats, expand); err != nil {
 			return stats, err
 		}
 	}
@@ -1608,7 +1618,7 @@ func (m mapImporter) Import(path string) (*types.Package, error) {
 	return nil, fmt.Errorf("package %s not loaded", path)
 }
 
-func normalizeOne(p *packages.Package, fset *token.FileSet, gen func(token.Pos) bool, stats *normStats) error {
+func normalizeOne(p *packages.Package, fset *token.FileSet, gen func(token.Pos) bool, stats *normStats, expand bool) error {
 	n := &normalizer{fset: fset, pkg: p, info: p.TypesInfo, decls: map[*types.Func]*ast.FuncDecl{}, file: map[*ast.FuncDecl]*ast.File{},
 		elig: map[*types.Func]string{}, rec: map[*types.Func]bool{}, orig: map[ast.Node]ast.Node{}, stats: stats, gen: gen}
 	for _, f := range p.Syntax {
@@ -1645,7 +1655,7 @@ func normalizeOne(p *packages.Package, fset *token.FileSet, gen func(token.Pos) 
 		nf.Scope = nil
 		nf.Unresolved = nil
 		newFiles[fi] = &nf
-		if gen(f.Pos()) || strings.HasSuffix(fset.Position(f.Pos()).Filename, "_test.go") {
+		if !expand || gen(f.Pos()) || strings.HasSuffix(fset.Position(f.Pos()).Filename, "_test.go") {
 			continue
 		}
 		for di, d := range f.Decls {
